@@ -16,6 +16,18 @@ SPECS = [
          ],
          raises={'*': {'ensures': ["raised('e5') or raised('e6') or raised('h1') or raised('h2')"]}},
          serves=['C01', 'C04'], no_fresh=True),
+    dict(id='S-Switch-nested',
+         # a tal:case belongs to the NEAREST enclosing tal:switch
+         text='A<s tal:switch="e5"><i tal:case="e6"><t tal:switch="e1"><u tal:case="e2">%s</u></t></i></s>B' % H1,
+         ensures=[
+             "evals(5) == 1", "evals(6) == 1",
+             "(evals(1) == 1) == bool(val(6) == val(5) or val(6) == DEFAULT())",
+             "evals(2) == evals(1)",
+             "evals(1) == 0 or holes(1) == (1 if bool(val(2) == val(1) or val(2) == DEFAULT()) else 0)",
+             "evals(1) == 1 or holes(1) == 0",
+         ],
+         raises={'*': {'ensures': ["raised('e5') or raised('e6') or raised('e1') or raised('e2') or raised('h1')"]}},
+         serves=['C01', 'C04'], no_fresh=True),
     dict(id='S-Case-Condition',
          # a case element that also carries a guard: the case expression decides whether the
          # element is the selected one, the guard whether the selected element is rendered
